@@ -18,6 +18,7 @@ func init() {
 	vrt.Register("C11_more_shapes", MoreShapes)
 	vrt.Register("C11_index_of_another_type", IndexOfAnotherType)
 	vrt.Register("C11_narrow_integer_keys", NarrowIntegerKeys)
+	vrt.Register("C11_receiver_forms", ReceiverForms)
 }
 
 type T struct {
@@ -571,5 +572,50 @@ func NarrowIntegerKeys() {
 	} else {
 		vrt.Assert(err != nil || got == "[]", "an int index that equals no key of the map: an error or empty output, never some entry: "+c.expr)
 	}
+	vrt.Cover("done")
+}
+
+// ---- the same method reached through a value and through a pointer of one
+// type, in both orders, in one render and across renders: a type whose pointer
+// method set interleaves pointer-receiver methods (Audit, Zed) with the value
+// methods (Owner, Token), so that positions in the two method tables differ
+type Acct struct {
+	O, T, A, Z string
+}
+
+func (a *Acct) Audit() string { return a.A }
+func (a Acct) Owner() string  { return a.O }
+func (a Acct) Token() string  { return a.T }
+func (a *Acct) Zed() string   { return a.Z }
+
+func ReceiverForms() {
+	v := Acct{O: leaf(), T: leaf(), A: leaf(), Z: leaf()}
+	w := Acct{O: leaf(), T: leaf(), A: leaf(), Z: leaf()}
+	ctx := plush.NewContext()
+	ctx.Set("v", v)
+	ctx.Set("p", &w)
+	ctx.Set("mixed", []interface{}{&w, v, &w})
+	type cs struct{ in, want string }
+	cases := []cs{
+		{"<%= p.Owner() %>|<%= v.Owner() %>", w.O + "|" + v.O},
+		{"<%= v.Owner() %>|<%= p.Owner() %>", v.O + "|" + w.O},
+		{"<%= p.Token() %>|<%= v.Token() %>|<%= p.Owner() %>", w.T + "|" + v.T + "|" + w.O},
+		{"<%= p.Audit() %>|<%= p.Token() %>|<%= v.Token() %>|<%= v.Owner() %>", w.A + "|" + w.T + "|" + v.T + "|" + v.O},
+		{"<%= p.Zed() %>|<%= v.Token() %>|<%= p.Token() %>", w.Z + "|" + v.T + "|" + w.T},
+		{"<%= for (a) in mixed { %><%= a.Owner() %>,<% } %>", w.O + "," + v.O + "," + w.O + ","},
+		{"<%= for (a) in mixed { %><%= a.Token() %>,<% } %>", w.T + "," + v.T + "," + w.T + ","},
+		{"<%= v.Token() %>|<%= v.Audit() %>", v.T + "|" + v.A}, // a pointer method on a value: plush calls it on a copy
+	}
+	c := cases[vrt.Choice(len(cases))]
+	// optionally an earlier render that resolves the methods through the other form first
+	switch vrt.Choice(3) {
+	case 1:
+		plush.Render("<%= p.Owner() %><%= p.Token() %>", ctx)
+	case 2:
+		plush.Render("<%= v.Owner() %><%= v.Token() %>", ctx)
+	}
+	got, err := render(c.in, ctx)
+	vrt.Assert(err == nil, "a method reachable in Go renders through a value and through a pointer: "+c.in)
+	vrt.Assert(got == c.want, "each call runs the method it names on the receiver it names: "+c.in)
 	vrt.Cover("done")
 }
